@@ -278,6 +278,15 @@ def host_reexport_cases():
     for items, w in ((["g"], "ACCEPT"), (["tick"], "REJECT"), (["g", "tick"], "REJECT"), (["tick", "g"], "REJECT"), (["hidden"], "REJECT")):
         cases.append(("import { " + ", ".join(items) + " } from b;\nfn main() { " + "".join(f"{i}(); " for i in items) + "}\n", {"b": a}))
         want.append(w)
+    # F3: a module's own function may not take the name of a value it imports (the analyzer would type the calls against
+    # the import, both backends would run the module's own function)
+    b = 'pub fn g() { println("b.g"); }\nfn main() { }\n'
+    cases.append(('import { g } from b;\nfn g() { }\nfn main() { g(); }\n', {"b": b}))
+    want.append("REJECT")
+    cases.append(('import { g } from b;\nfn h() { }\nfn main() { g(); h(); }\n', {"b": b}))
+    want.append("ACCEPT")
+    cases.append(('import { hv } from b;\nfn hv() -> int { 5 }\nfn main() { println(hv()); }\n', {"b": 'pub let hv = 1;\nfn main() { }\n'}))
+    want.append("REJECT")
     return cases, want
 
 
